@@ -6,10 +6,13 @@ package kcache
 
 import (
 	"context"
+	"time"
 
 	logutil "github.com/boz/go-logutil"
+	"github.com/boz/kcache/client"
 	"github.com/boz/kcache/filter"
 	metav1 "k8s.io/apimachinery/pkg/apis/meta/v1"
+	"k8s.io/apimachinery/pkg/runtime"
 )
 
 // VerifCache gives direct, goroutine-free access to the cache's sequential
@@ -63,3 +66,41 @@ func (v *VerifCacheActor) Refilter(list []metav1.Object, f filter.Filter) ([]Eve
 func (v *VerifCacheActor) Reader() CacheReader { return v.c }
 
 func (v *VerifCacheActor) Done() <-chan struct{} { return v.c.Done() }
+
+// VerifTicker is the refresh ticker.
+type VerifTicker interface {
+	Next() <-chan int
+	Reset()
+	Stop()
+	Done() <-chan struct{}
+}
+
+func NewVerifTicker(period time.Duration, fuzz float64) VerifTicker {
+	return newTicker(period, fuzz)
+}
+
+// VerifLister is the periodic lister in isolation.
+type VerifLister struct {
+	l *_lister
+}
+
+func NewVerifLister(ctx context.Context, log logutil.Log, stopch <-chan struct{}, period time.Duration, client client.ListClient) *VerifLister {
+	return &VerifLister{newLister(ctx, log, stopch, period, client)}
+}
+
+// Recv consumes the next list result; ok is false when the lister is done or
+// stop fired first.
+func (v *VerifLister) Recv(stop <-chan struct{}) (list runtime.Object, err error, ok bool) {
+	select {
+	case r := <-v.l.Result():
+		return r.list, r.err, true
+	case <-v.l.Done():
+		return nil, nil, false
+	case <-stop:
+		return nil, nil, false
+	}
+}
+
+func (v *VerifLister) Done() <-chan struct{} { return v.l.Done() }
+
+func (v *VerifLister) Error() error { return v.l.Error() }
